@@ -7,6 +7,7 @@ import (
 	"go/token"
 	"go/types"
 	"os"
+	"os/exec"
 	"runtime/debug"
 	"sort"
 	"strings"
@@ -20,25 +21,27 @@ type externalFn func(fr *frame, args []value) value
 
 // Engine is shared, read-only configuration for all paths of all harnesses.
 type Engine struct {
-	Prog          *ssa.Program
-	MainPkg       *ssa.Package
-	MaxSteps      int64
-	MaxPaths      int
-	Workers       int
-	SolverKind    string
-	TimeoutMs     int
-	NoIfConvert   bool
-	Trace         bool
-	CrossCheck    bool // discharge assertion queries on cvc5 too
-	NoModelGuide  bool
-	Deadline      time.Time
-	HarnessBudget time.Duration
-	externals     map[string]externalFn
-	overrides     map[string]*ssa.Function // fn.String() -> harness function
-	SkipInitPkgs  map[string]bool
-	mu            sync.Mutex
-	StubsHit      map[string]int
-	pdomCache     map[*ssa.Function]*pdomInfo
+	Prog             *ssa.Program
+	MainPkg          *ssa.Package
+	MaxSteps         int64
+	MaxPaths         int
+	Workers          int
+	SolverKind       string
+	TimeoutMs        int
+	NoIfConvert      bool
+	Trace            bool
+	CrossCheck       bool // discharge assertion queries on cvc5 too
+	NoModelGuide     bool
+	NoFallback       bool
+	FallbackTimeoutS int
+	Deadline         time.Time
+	HarnessBudget    time.Duration
+	externals        map[string]externalFn
+	overrides        map[string]*ssa.Function // fn.String() -> harness function
+	SkipInitPkgs     map[string]bool
+	mu               sync.Mutex
+	StubsHit         map[string]int
+	pdomCache        map[*ssa.Function]*pdomInfo
 }
 
 func (e *Engine) skipInit(pkg *ssa.Package) bool {
@@ -148,6 +151,12 @@ func (p *pathState) check(extra *Term, wantModel bool) (Verdict, map[string]uint
 		fmt.Fprintf(os.Stderr, "SLOW %v %s extra=%s\n", time.Since(tq), v, describeTerm(extra, 3))
 	}
 	p.stats.Queries++
+	if v == Unknown && !wantModel {
+		if fv, who := p.fallback(extra); fv != Unknown {
+			v = fv
+			p.h.noteFallback(who)
+		}
+	}
 	var model map[string]uint64
 	var ufVals map[int]uint64
 	if v == Sat && wantModel {
@@ -495,6 +504,9 @@ func (fr *frame) assumeCond(cond value) {
 func (p *pathState) replayValues(model map[string]uint64, ufv map[int]uint64) []ReplayValue {
 	var out []ReplayValue
 	for _, n := range p.nondets {
+		if n.Kind == "env" {
+			continue // engine-internal environment nondeterminism: not part of the native replay vector
+		}
 		rv := ReplayValue{Name: n.Name, Kind: n.Kind, Bits: n.W}
 		switch {
 		case n.t == nil:
@@ -546,6 +558,7 @@ type HarnessResult struct {
 	Stubs           map[string]int
 	Wall            time.Duration
 	SampleInputs    [][]ReplayValue
+	Fallbacks       map[string]int
 }
 
 type harnessRun struct {
@@ -864,4 +877,66 @@ func describeTerm(t *Term, depth int) string {
 		s += " " + describeTerm(a, depth-1)
 	}
 	return s + ")"
+}
+
+// standaloneScript renders pc ∧ extra as a self-contained SMT-LIB script.
+func (p *pathState) standaloneScript(extra *Term) string {
+	em := NewEmitter()
+	for _, c := range p.pc {
+		em.Define(c)
+		fmt.Fprintf(&em.Out, "(assert %s)\n", ref(c))
+	}
+	if extra != nil {
+		em.Define(extra)
+		fmt.Fprintf(&em.Out, "(assert %s)\n", ref(extra))
+	}
+	em.Out.WriteString("(check-sat)\n")
+	return em.Out.String()
+}
+
+// fallback re-runs an inconclusive query on the other installed solvers (fresh processes).
+func (p *pathState) fallback(extra *Term) (Verdict, string) {
+	if p.h.eng.NoFallback {
+		return Unknown, ""
+	}
+	script := p.standaloneScript(extra)
+	f, err := os.CreateTemp("", "gosym-q-*.smt2")
+	if err != nil {
+		return Unknown, ""
+	}
+	defer os.Remove(f.Name())
+	f.WriteString("(set-logic ALL)\n" + script)
+	f.Close()
+	tmo := p.h.eng.FallbackTimeoutS
+	if tmo <= 0 {
+		tmo = 60
+	}
+	tries := [][]string{
+		{"cvc5", "--solve-bv-as-int=sum", fmt.Sprintf("--tlimit=%d", tmo*1000), f.Name()},
+		{"z3", "-smt2", fmt.Sprintf("-T:%d", tmo), f.Name()},
+		{"cvc5", fmt.Sprintf("--tlimit=%d", tmo*1000), f.Name()},
+	}
+	for _, t := range tries {
+		out, _ := exec.Command(t[0], t[1:]...).CombinedOutput()
+		s := strings.TrimSpace(string(out))
+		if strings.Contains(s, "(error") {
+			continue
+		}
+		switch {
+		case strings.HasPrefix(s, "unsat"):
+			return Unsat, strings.Join(t[:len(t)-1], " ")
+		case strings.HasPrefix(s, "sat"):
+			return Sat, strings.Join(t[:len(t)-1], " ")
+		}
+	}
+	return Unknown, ""
+}
+
+func (h *harnessRun) noteFallback(who string) {
+	h.mu.Lock()
+	if h.res.Fallbacks == nil {
+		h.res.Fallbacks = map[string]int{}
+	}
+	h.res.Fallbacks[who]++
+	h.mu.Unlock()
 }
